@@ -691,6 +691,23 @@ def rec_npz(tier, seed, recs, notes):
                         recs += records_for("npz", what, None, None, c, dt, True, True, ([[]] * size, [0] * size),
                                             ([[]] * size, [0] * size))
                     n += 1
+    # a TensorDict with keys of SEVERAL dtypes (float64, float16, int32, int8, bool next to float32 / int64): a codec that
+    # normalises dtypes changes values the generators (float32 / int64 only) never show
+    from tensordict import TensorDict as _TD
+    for size in (1, 4):
+        g = torch.Generator().manual_seed(seed + size)
+        base = torch.rand(size, 5, 2, generator=g, dtype=torch.float64)
+        td = _TD({"locs": base.float(), "precise": base + 1e-12, "half": base[..., 0].half(), "count": torch.arange(size * 5, dtype=torch.int32).view(size, 5),
+                  "small": torch.arange(size, dtype=torch.int8), "flag": base[..., 1] > 0.5, "idx": torch.arange(size)}, batch_size=[size])
+        f = os.path.join(d, "mixed_dtypes_%d.npz" % size)
+        back, err = attempt(lambda: (save_tensordict_to_npz(td, f), load_npz_to_tensordict(f))[1])
+        if err:
+            recs += failed("npz", "TensorDict with keys of several dtypes, size=%d" % size, size, err)
+            continue
+        c, dt, why = td_compare(td, back)
+        recs += records_for("npz", "TensorDict with keys of several dtypes, size=%d %s" % (size, why), None, None, c, dt, True, True,
+                            ([[]] * size, [0] * size), ([[]] * size, [0] * size))
+        n += 1
     # observation only (a route C19 does not name): generator instances saved with save_tensordict_to_npz are NOT what
     # CVRPEnv.load_data expects (it divides by the capacity once more, and the generator's capacity is [B, 1])
     env = make_env("cvrp", seed=seed + 3)
